@@ -58,6 +58,11 @@ def rule_refresh(ctx):
             if refresh and (not msteps or max(x.order for x in refresh) > max(x.order for x in msteps)) and gkeys(refresh[-1]) == gkeys(e):
                 res.ok()
                 res.sample({"fn": key, "order": "m_step .. refresh_precisions_full .. store"})
+            elif any(((x.kind == "call" and x.name.startswith("refresh_precisions")) or (x.kind == "assign" and x.lhs.endswith(".precisions") and "call:compute_precisions_full(" in k(x.val) and "precisions_chol" in k(x.val))) and not x.loops and x.order > e.order for x in tr.events):
+                # the snapshot is refreshed once, after the run loop, where it is taken out of the best-run slot and returned:
+                # what is handed out carries precisions derived from its own factors
+                res.ok()
+                res.sample({"fn": key, "order": "store .. (after the runs) refresh_precisions_full .. return"})
             else:
                 res.violate("%s : stale-precisions" % key, "the model is stored as the best run without refreshing `precisions` from the current `precisions_chol` after the last M-step", fn_loc(fn, e.node["ln"]))
     return res.finish(1)
@@ -165,7 +170,7 @@ def rule_err(ctx):
     # empty-component test precedes the division by nk
     for f in by_name.get("estimate_gaussian_parameters", []):
         key = fn_key(f)
-        tr = DivTracer(f).run()
+        tr = DivTracer(f, inline=ctx.inliner()).run()      # a guard extracted into a private helper (`Self::check_no_empty_cluster(&nk)?`) is read in place
         rets = [e for e in tr.events if e.kind == "ret" and as_term(e.val) is not None and as_term(e.val).is_call("Err")]
         divs = [e for e in tr.events if e.kind == "div"]
         res.instance("%s : empty-component test before division by nk" % key)
@@ -176,9 +181,35 @@ def rule_err(ctx):
                 res.violate("%s : empty-cluster-guard-on-floored-mass" % key, "the empty-component test reads `%s`, not the raw column sums of the responsibilities: once a floor has been added to the mass the test `min < eps` can never fire and an emptied component is returned as a model" % k(mins[0].recv)[:80], fn_loc(f, mins[0].node["ln"]))
             else:
                 res.ok()
+        elif _guard_in_helper(f, divs):
+            res.ok()        # `Self::check_no_empty_cluster(&nk)?` before the division: the helper returns Err under a test of the minimum
         else:
             res.violate("%s : empty-cluster-guard" % key, "no `nk.min() < eps -> return Err(EmptyCluster)` test before the division by the component weights", fn_loc(f))
     return res.finish(8)
+
+
+def _guard_in_helper(f, divs):
+    """a `?` on a call of a function of the same crate, ahead of the first division, whose body returns Err under a test of
+    the minimum of its argument"""
+    c = f["crate"]
+    first_div = min([e.node.get("ln") or 10 ** 9 for e in divs] or [10 ** 9])
+    for y in walk(f["body"]):
+        if y.get("k") == "Match" and y.get("src") == "TryDesugar" and (y.get("ln") or 0) <= first_div:
+            sc = strip(y["scrut"])
+            inner = strip(sc["args"][0]) if sc.get("k") == "Call" and sc.get("args") else None
+            if inner is None or inner.get("k") not in ("Call", "MethodCall"):
+                continue
+            di = strip(inner["f"]).get("inst", strip(inner["f"]).get("def")) if inner["k"] == "Call" else inner.get("inst", inner.get("def"))
+            g = next((h for h in c.fns if h["def"] == di), None)
+            if g is None and inner["k"] == "Call":
+                g = next((h for h in c.fns if h["def"] == strip(inner["f"]).get("def")), None)
+            if g is None or g is f:
+                continue
+            tr = DivTracer(g).run()
+            rets = [e for e in tr.events if e.kind == "ret" and as_term(e.val) is not None and as_term(e.val).is_call("Err")]
+            if any("call:min(" in g_[1] for e in rets for g_ in e.guards):
+                return True
+    return False
 
 
 class DivTracer(Tracer):
